@@ -13,7 +13,7 @@ from .arrdom import AArr
 from .c19 import deep_eq
 from .evalrun import ARRAY_LABELS, CFG, EvalInterp, build_evaluator, build_groups, construct, run_evaluate, run_pipeline
 from .fsrun import FS
-from .resultrun import metric_objs
+from .resultrun import Tagged, metric_objs
 
 INFO = {
     "explanation": "(R15.1) ALIAS/EFFECT: evaluate (three input types, with and without class groups), panoptic_evaluate, the result constructor and the metric call are interpreted with abstract arrays that alias exactly like numpy arrays; every in-place sink (masked/sliced store, augmented assignment, out=, sort/fill/put/copyto) on a buffer that aliases a caller array is reported; (R15.2) evaluate is interpreted for every combination of the constructor's and the per-call save_group_times flag - no path reads an unassigned local; (R15.3) the evaluator's attributes are identical before and after evaluate, constructors do not modify list arguments (incl. shared default lists), default arguments are identical before and after all runs, and constructing an aggregator (with log_times) leaves the evaluator's advertised metric keys untouched; (R15.4) the arguments of the pipeline call are identical for every combination of result_all / save_group_times / log_times / verbose; (R15.5) worker pools are consumed through order-preserving map/starmap only; (R15.6) configuration objects write their attributes only in __init__ and the tabled setters; (R15.7) module globals written on evaluation paths are on an allow-list with reasons. Further: R15.8 (ALIAS/EFFECT as a flow-sensitive may-alias dataflow with return and written-parameter summaries; effects reported at the public boundary), R15.6 extended to the aggregator, R15.7 to module-level containers reached through aliases.",
@@ -297,6 +297,111 @@ def check_pools(ctx: Ctx):
         ctx.undecided("R15.5.floor", None, None, "floor:R15.5", f"{n} pool calls found, confirmed floor is 2")
 
 
+class _AppFn:
+    """the worker function of a parallel map helper: records what it is applied to"""
+
+
+class _MapHelperInterp(Interp):
+    def __init__(self, *a, cpu=4, **kw):
+        super().__init__(*a, **kw)
+        self.root.cpu = cpu
+
+    def external_call(self, name, args, kwargs, node):
+        if name.split(".")[-1] in ("Pool", "NonDaemonicPool", "ThreadPool"):
+            return Sym("pool")
+        if name in ("os.cpu_count", "multiprocessing.cpu_count"):
+            return self.root.cpu
+        if name.endswith(".starmap") and len(args) == 2 and isinstance(args[1], (list, tuple)):
+            return [self.apply(args[0], list(t), {}, node) for t in args[1]]
+        if name.endswith(".map") and len(args) == 2 and isinstance(args[1], (list, tuple)):
+            return [self.apply(args[0], [t], {}, node) for t in args[1]]
+        return super().external_call(name, args, kwargs, node)
+
+    def get_attr(self, base, attr, node):
+        if isinstance(base, Sym) and base.name == "pool" and attr in ("starmap", "map"):
+            return Sym("pool." + attr)
+        return super().get_attr(base, attr, node)
+
+    def apply(self, fv, args, kwargs, node):
+        if isinstance(fv, _AppFn):
+            return Tagged("app", list(args))
+        return super().apply(fv, args, kwargs, node)
+
+
+def parallel_map_helpers(prog) -> dict:
+    """Package functions that take a worker function and run it over items through a Pool:
+    {qual: (Func, func-param, shared-param | None, items-param, workers-param | None)}"""
+    out = {}
+    for f in prog.package_functions():
+        if f.cls is not None:
+            continue
+        names = [p.name for p in f.call_params]
+        fp = next((n for n in names if n.lower() in ("func", "fn", "function", "f", "worker", "callback")), None)
+        ip = next((n for n in names if n.lower() in ("items", "iterable", "args_list", "tasks", "arguments", "argument_list")), None)
+        if fp is None or ip is None:
+            continue
+        uses_pool = any(isinstance(n, ast.Call) and (dotted(n.func) or "").split(".")[-1] in ("Pool", "NonDaemonicPool", "ThreadPool") for n in walk_no_nested(f.node))
+        if not uses_pool:
+            continue
+        sp = next((n for n in names if "shared" in n.lower() or n.lower() in ("common_args", "fixed_args")), None)
+        wp = next((n for n in names if "worker" in n.lower() and n != fp or n.lower() in ("processes", "n_jobs", "n_procs")), None)
+        out[f.qual] = (f, fp, sp, ip, wp)
+    return out
+
+
+def verify_map_helper(prog, spec):
+    """(ok, witness): the helper returns [func(*shared, *item) for item in items], in item order, for
+    every worker count (explicit 1, 2, 3, 5 and None with 1, 2, 3 or 16 cores) and 0..5 items."""
+    f, fp, sp, ip, wp = spec
+    A, B = Sym("SHARED_A"), Sym("SHARED_B")
+    for n_items in range(0, 6):
+        items = [(Sym(f"x{k}"), Sym(f"y{k}")) for k in range(n_items)]
+        want = [Tagged("app", ([A, B] if sp else []) + list(t)) for t in items]
+        configs = [(w, 4) for w in (1, 2, 3, 5)] + [(None, c) for c in (1, 2, 3, 16)] if wp else [(None, c) for c in (1, 2, 3, 16)]
+        for w, cpu in configs:
+            args = {fp: _AppFn(), ip: list(items)}
+            if sp:
+                args[sp] = (A, B)
+            if wp:
+                args[wp] = w
+            it = _MapHelperInterp(prog, f, args, cpu=cpu)
+            out = it.run()
+            if out.kind != "return" or out.decisions:
+                return None, {"items": n_items, "workers": w, "cpu_count": cpu, "outcome": f"{out.kind} {out.exc or ''}"}
+            got = out.value
+            if not (isinstance(got, list) and [repr(x) for x in got] == [repr(x) for x in want]):
+                return False, {"items": n_items, "workers": w, "cpu_count": cpu, "got_order": [repr(x.args[-2]) if isinstance(x, Tagged) and len(x.args) >= 2 else repr(x) for x in got] if isinstance(got, list) else repr(got), "want_order": [repr(t[0]) for t in items]}
+    return True, None
+
+
+def verified_map_helpers(prog) -> dict:
+    cache = prog.__dict__.get("_verified_map_helpers")
+    if cache is None:
+        cache = {}
+        for q, spec in parallel_map_helpers(prog).items():
+            try:
+                ok, _ = verify_map_helper(prog, spec)
+            except (Undecided, AnchorMissing):
+                ok = None
+            if ok is True:
+                cache[q] = spec
+        prog.__dict__["_verified_map_helpers"] = cache
+    return cache
+
+
+def check_map_helpers(ctx: Ctx):
+    """R15.5 (helpers): a function that distributes calls over a pool itself (batches, chunks) hands
+    the results back in the order of its items, for every number of workers."""
+    prog = ctx.prog
+    for q, spec in sorted(parallel_map_helpers(prog).items()):
+        f = spec[0]
+        try:
+            ok, wit = verify_map_helper(prog, spec)
+        except (Undecided, AnchorMissing) as e:
+            ok, wit = None, {"error": str(e)}
+        ctx.decide("R15.5", f, f.node, f"{q}:order", "results come back one per item and in item order, whatever the number of worker processes (metrics do not depend on how the work is distributed)", ok, wit)
+
+
 def check_state_writers(ctx: Ctx):
     prog = ctx.prog
     roots = [prog.cls("utils.config:SupportsConfig")]
@@ -529,6 +634,7 @@ def check(ctx: Ctx):
     _guard(ctx, "R15.1", check_no_input_mutation)
     _guard(ctx, "R15.2", check_options)
     _run_rule(ctx, "check_pools", check_pools)
+    _run_rule(ctx, "R15.5", check_map_helpers)
     _run_rule(ctx, "check_state_writers", check_state_writers)
     _run_rule(ctx, "check_globals", check_globals)
     _run_rule(ctx, "R15.9", check_metric_call_history)
